@@ -320,6 +320,7 @@ package leveldb
 //@     invariant [lk-parked] db.compWriteLocking ==> held(db.writeLockC) >= 1
 //@   loop 2
 //@     invariant [lk-parked] db.compWriteLocking ==> held(db.writeLockC) >= 1
+//@     invariant [C09:a-read-only-request-is-never-held-as-a-transient-error] err != ErrReadOnly
 //@   loop 3
 //@     invariant [lk-parked] db.compWriteLocking ==> held(db.writeLockC) >= 1
 
